@@ -40,6 +40,11 @@ const (
 	w9CmdRest   = 3 // deliver all missing slots, do not return yet
 )
 
+const (
+	w9PtBefore  = "cache2.invalidate.before"
+	w9PtBetween = "cache2.invalidate.between_buckets" // in cache2Shard.invalidate after b.invalidate, before invalidateIteratorNext; no lock held
+)
+
 var errW9Load = errors.New("simulated storage error")
 
 var w9RunCount int // executions in this process (GC bookkeeping only)
@@ -86,6 +91,7 @@ type w9Inv struct {
 	step        int64
 	times       []int64
 	slots       map[int64]bool
+	first       int64 // smallest invalidated slot time
 	startSeq    uint64
 	completeSeq uint64
 	done        bool // written by the task goroutine
@@ -126,6 +132,104 @@ type w9World struct {
 	deferred *verifsim.Violation // first stale read of one of the two narrowly identified mechanisms (reported only if nothing else fails)
 	anyFailedLoad bool
 	rowB   int
+
+	// invalidation passes parked between two buckets (cache2.invalidate.between_buckets)
+	beforeArmed bool
+	bbArmed   bool // the point is armed in this run
+	bbOff     bool // wind-down: no further parking
+	bbPlan    int  // plan of the pass that runs now: 0 never park, 1/2 park after the 1st/2nd bucket, 3 after every bucket
+	bbHits    int  // buckets the running pass has processed (written by the invalidator goroutine)
+	bbFocus   int  // 0: three chunks per region; 1/2: Gets and invalidations stay within the first 1/2 chunks
+	overlap   bool // exploration aid W9_OVERLAP_INVALIDATIONS: do not serialise invalidation passes
+	bbTk      int  // ticket watched by bbWatch
+	bbIter    [2]*cache2Bucket
+	bbBuckets int
+}
+
+// uni: slots per region that Gets and invalidations address.
+func (w *w9World) uni(sc w9StepCfg) int {
+	if w.bbFocus != 0 {
+		return w.bbFocus * sc.csize
+	}
+	return 3 * sc.csize
+}
+
+// bbShouldPark runs on the invalidator goroutine when it stands between two buckets of its pass.
+func (w *w9World) bbShouldPark() bool {
+	if !w.bbArmed || w.bbOff {
+		return false
+	}
+	w.bbHits++
+	switch w.bbPlan {
+	case 0:
+		return false
+	case 3:
+		return true
+	}
+	return w.bbHits == w.bbPlan
+}
+
+// beginPass: the scheduler is about to let one invalidate() call enter its pass over the shard.
+func (w *w9World) beginPass() {
+	if !w.bbArmed {
+		return
+	}
+	w.bbPlan = w.c.Intn(4, "bb_plan")
+	w.bbHits = 0
+	w.r.Event("inv", "next pass parks between buckets by plan %d", w.bbPlan)
+}
+
+func (w *w9World) midPass(tickets []*verifsim.Ticket) *verifsim.Ticket {
+	for _, tk := range tickets {
+		if tk.Name == w9PtBetween {
+			return tk
+		}
+	}
+	return nil
+}
+
+func (w *w9World) iterSnapshot() (it [2]*cache2Bucket, ahead bool) {
+	for i, sc := range w.steps {
+		sh := w.ch.shards[time.Duration(sc.step)*time.Second]
+		sh.mu.Lock()
+		it[i] = sh.invalidateIter
+		sh.mu.Unlock()
+		if it[i] != nil {
+			ahead = true
+		}
+	}
+	return it, ahead
+}
+
+// bbWatch (probes only): what happens to the shard's invalidate iterator and to the buckets while an
+// invalidation pass is parked between two buckets. Pointers are compared, never logged.
+func (w *w9World) bbWatch(tickets []*verifsim.Ticket) {
+	tk := w.midPass(tickets)
+	if tk == nil {
+		w.bbTk = 0
+		return
+	}
+	it, ahead := w.iterSnapshot()
+	n := w.ch.bucketCount()
+	if tk.ID != w.bbTk {
+		w.bbTk, w.bbIter, w.bbBuckets = tk.ID, it, n
+		w.r.Probe("invalidation_parked_between_buckets")
+		if ahead {
+			w.r.Probe("invalidation_parked_between_buckets_with_buckets_ahead")
+		}
+		return
+	}
+	if n < w.bbBuckets {
+		w.r.Probe("bucket_removed_while_invalidation_parked")
+	}
+	w.bbBuckets = n
+	if it != w.bbIter {
+		w.r.Probe("next_bucket_of_parked_invalidation_removed")
+		if ahead {
+			w.r.Probe("next_bucket_of_parked_invalidation_removed_successor_remains")
+		}
+		w.bbIter = it
+	}
 }
 
 func (w *w9World) rowsFor(q int, step, t int64) int { return 1 + int((t/step+int64(q))%2) }
@@ -556,13 +660,30 @@ func (w *w9World) launchGet() {
 	if c.Intn(4, "region") == 3 {
 		base = sc.recentBase
 	}
-	uni := 3 * sc.csize
+	uni := w.uni(sc)
 	s0 := c.Intn(uni, "from_slot")
 	maxLen := uni - s0
 	if maxLen > 2*sc.csize+1 {
 		maxLen = 2*sc.csize + 1
 	}
 	ln := 1 + c.Intn(maxLen, "slots")
+	if w.bbArmed && len(w.invs) > 0 && c.Intn(2, "revisit") == 1 {
+		// ask again for what the latest invalidation named (any query of that step)
+		iv := w.invs[len(w.invs)-1]
+		for _, x := range w.steps {
+			if x.step == iv.step {
+				sc = x
+			}
+		}
+		t := iv.first
+		base = sc.oldBase
+		if t >= sc.recentBase {
+			base = sc.recentBase
+		}
+		s0 = int((t - base) / sc.step)
+		ln = 1 + c.Intn(2, "revisit_slots")
+		r.Probe("get_revisits_latest_invalidation")
+	}
 	play := []int{0, 0, 0, 0, 0, 1, 5}[c.Intn(7, "play")]
 	force := c.Intn(8, "force_load") == 7
 	g := &w9Get{id: len(w.gets), q: q, step: sc.step, from: base + int64(s0)*sc.step, to: base + int64(s0+ln)*sc.step, play: play, force: force}
@@ -577,6 +698,9 @@ func (w *w9World) launchGet() {
 	blocked := w.wouldBlockAtStart()
 	if blocked {
 		r.Probe("get_waits_for_memory")
+	}
+	if w.midPass(w.pts.Parked()) != nil {
+		r.Probe("get_begun_while_invalidation_parked")
 	}
 	g.beginSeq = r.Seq()
 	r.Sched("get", fmt.Sprintf("client%d", w.outstanding()))
@@ -603,7 +727,7 @@ func (w *w9World) launchInvalidate() {
 	n := 1 + c.Intn(3, "inv_count")
 	set := map[int64]bool{}
 	for i := 0; i < n; i++ {
-		set[base+int64(c.Intn(3*sc.csize, "inv_slot"))*sc.step] = true
+		set[base+int64(c.Intn(w.uni(sc), "inv_slot"))*sc.step] = true
 	}
 	iv := &w9Inv{id: len(w.invs), step: sc.step, slots: set}
 	var slots []int64
@@ -611,6 +735,7 @@ func (w *w9World) launchInvalidate() {
 		slots = append(slots, t)
 	}
 	sort.Slice(slots, func(i, j int) bool { return slots[i] < slots[j] })
+	iv.first = slots[0]
 	last := c.Intn(2, "inv_last_second") == 1
 	for _, t := range slots {
 		// the model-store write that the invalidation announces
@@ -629,6 +754,9 @@ func (w *w9World) launchInvalidate() {
 		rel[i] = (t - base) / sc.step
 	}
 	r.Event("inv", "%d begin step=%d slots=%v of %s region", iv.id, sc.step, rel, map[bool]string{true: "old", false: "recent"}[base == sc.oldBase])
+	if !w.beforeArmed {
+		w.beginPass() // otherwise when the ticket at cache2.invalidate.before is released
+	}
 	go func() {
 		defer func() {
 			if p := recover(); p != nil {
@@ -769,16 +897,27 @@ func w9Run(t *testing.T, r *verifsim.Run) {
 	useLimits := c.Intn(3, "use_limits") != 0
 	useReset := c.Intn(2, "use_reset") == 1
 	useAged := c.Intn(2, "use_aged") == 1
-	hooks := c.Intn(4, "hooks")
+	hooks := c.Intn(8, "hooks")
 	trimHooks := c.Intn(4, "trim_hooks")
-	armed := map[string]bool{"cache2.load.after_notify": hooks&1 != 0, "cache2.invalidate.before": hooks&2 != 0,
+	armed := map[string]bool{"cache2.load.after_notify": hooks&1 != 0, w9PtBefore: hooks&2 != 0,
 		"cache2.trim.before_reduce": trimHooks&1 != 0, "cache2.trim.before_aged": trimHooks&2 != 0}
+	w.beforeArmed = armed[w9PtBefore]
+	w.bbArmed = hooks&4 != 0
+	w.overlap = os.Getenv("W9_OVERLAP_INVALIDATIONS") != ""
 	if os.Getenv("W9_DISARM_AFTER_NOTIFY") != "" {
 		// exploration aid (sensitivity tests): both findings on the pinned tree need a goroutine parked
 		// at cache2.load.after_notify; without that point the unchanged tree is expected to pass
 		armed["cache2.load.after_notify"] = false
 	}
 	ops := 40 + c.Intn(160, "ops")
+	if w.bbArmed {
+		// runs that park invalidation passes between buckets: several buckets per shard, and in two
+		// thirds of them a narrow universe so that the buckets' chunks cover the invalidated slots
+		w.nQ = 3 + c.Intn(3, "bb_queries")
+		w.bbFocus = c.Intn(3, "bb_focus")
+		r.Config["queries"] = w.nQ
+		r.Config["bb_focus"] = w.bbFocus
+	}
 	r.Config["clients"] = clients
 	r.Config["queries"] = w.nQ
 	r.Config["chunk_size"] = chunkSize
@@ -794,7 +933,12 @@ func w9Run(t *testing.T, r *verifsim.Run) {
 	r.Config["ops"] = ops
 
 	w.hnd = &Handler{HandlerOptions: HandlerOptions{location: time.UTC, utcOffset: utc}}
-	w.pts = verifsim.NewPoints(func(name string) bool { return armed[name] })
+	w.pts = verifsim.NewPoints(func(name string) bool {
+		if name == w9PtBetween {
+			return w.bbShouldPark()
+		}
+		return armed[name]
+	})
 	defer w.pts.Close()
 	w.ch = newCache2(w.hnd, chunkSize, w.loader)
 	condL := &w9CondLocker{mu: &w.ch.mu, waits: map[string]int{}}
@@ -837,6 +981,11 @@ func w9Run(t *testing.T, r *verifsim.Run) {
 		}
 		idle := w.idleLoads()
 		tickets := w.pts.Parked()
+		w.bbWatch(tickets)
+		// invalidate() has one caller in the server (Handler.invalidateLoop) and the shard has one
+		// invalidate iterator: passes over a shard do not overlap. While a pass is parked between two
+		// buckets no other invalidate() call enters its pass.
+		passParked := w.midPass(tickets) != nil && !w.overlap
 		var acts []act
 		for _, ld := range idle {
 			// "complete" = deliver what is missing, or (a step later) return
@@ -852,6 +1001,9 @@ func w9Run(t *testing.T, r *verifsim.Run) {
 			}
 		}
 		for _, tk := range tickets {
+			if passParked && tk.Name == w9PtBefore {
+				continue
+			}
 			acts = append(acts, act{kind: "release", tk: tk.ID})
 		}
 		canGet := w.outstanding() < clients && len(w.gets) < 60 && w.allocWaiter() == nil
@@ -864,7 +1016,7 @@ func w9Run(t *testing.T, r *verifsim.Run) {
 				running++
 			}
 		}
-		if running < 2 {
+		if running < 2 && (!passParked || w.beforeArmed) {
 			acts = append(acts, act{kind: "invalidate"})
 		}
 		for _, ld := range idle {
@@ -907,6 +1059,9 @@ func w9Run(t *testing.T, r *verifsim.Run) {
 				if tk.ID == a.tk {
 					r.Event("hook", "release ticket %d at %s", tk.ID, tk.Name)
 					r.Probe("parked_at_" + tk.Name)
+					if tk.Name == w9PtBefore {
+						w.beginPass()
+					}
 				}
 			}
 			w.pts.Release(a.tk)
@@ -924,10 +1079,16 @@ func w9Run(t *testing.T, r *verifsim.Run) {
 			r.Event("clock", "sleep %v", d)
 			w.stepWait(d)
 		case "limits":
+			if passParked {
+				r.Probe("limits_drawn_while_invalidation_parked")
+			}
 			w.drawLimits()
 		case "reset":
 			r.Sched("reset", "admin")
 			r.Event("reset", "begin")
+			if passParked {
+				r.Probe("reset_while_invalidation_parked")
+			}
 			quiet := w.outstanding() == 0 && len(tickets) == 0
 			w.ch.reset()
 			if quiet {
@@ -939,6 +1100,9 @@ func w9Run(t *testing.T, r *verifsim.Run) {
 				}
 			}
 		case "aged":
+			if passParked {
+				r.Probe("aged_trim_pulse_while_invalidation_parked")
+			}
 			w.agedTrim()
 		}
 	}
@@ -951,6 +1115,7 @@ func w9Run(t *testing.T, r *verifsim.Run) {
 func (w *w9World) windDown(check bool) {
 	r := w.r
 	w.setLimits(cache2Limits{}, "lifted")
+	w.bbOff = true // a pass parked between buckets is released first (below) and parks no more
 	const budget = 400
 	steps := 0
 	for ; steps < budget; steps++ {
@@ -964,7 +1129,11 @@ func (w *w9World) windDown(check bool) {
 			}
 			busy = true
 		} else if tks := w.pts.Parked(); len(tks) > 0 {
-			w.pts.Release(tks[0].ID)
+			tk := tks[0]
+			if mp := w.midPass(tks); mp != nil {
+				tk = mp
+			}
+			w.pts.Release(tk.ID)
 			busy = true
 		}
 		pendingLoad := false
